@@ -2,6 +2,7 @@ from __future__ import annotations
 
 import os
 import threading
+import weakref
 from typing import Any
 
 import duckdb
@@ -71,6 +72,9 @@ class FakeSnow:
         # connect has attached but not yet finished setting up
         self._connect_lock = threading.Lock()
 
+        # the connections handed out, so they can be closed with the instance
+        self._connections: weakref.WeakSet[fakes.FakeSnowflakeConnection] = weakref.WeakSet()
+
         self.duck_conn = duckdb.connect(database=":memory:")
 
         # create a "global" database for storing objects which span databases.
@@ -86,7 +90,7 @@ class FakeSnow:
         # and to make connections thread-safe see
         # https://duckdb.org/docs/api/python/overview.html#using-connections-in-parallel-python-programs
         with self._connect_lock:
-            return fakes.FakeSnowflakeConnection(
+            conn = fakes.FakeSnowflakeConnection(
                 self.duck_conn.cursor(),
                 database,
                 schema,
@@ -96,3 +100,13 @@ class FakeSnow:
                 nop_regexes=self.nop_regexes,
                 **kwargs,
             )
+            self._connections.add(conn)
+            return conn
+
+    def close(self) -> None:
+        """Close the connections of this instance, and its database."""
+        with self._connect_lock:
+            for conn in list(self._connections):
+                if not conn.is_closed():
+                    conn.close()
+            self.duck_conn.close()
